@@ -18,6 +18,10 @@ Alias(op, g, f, P) == {Inst(op, g, f, p, 0) : p \in P}
 
 Transformations ==
   Flav4("Map", {0}) \cup Plain("MapTo", {5}) \cup Flav4("MapErr", {0}) \cup Flav4("Scan", {0, 3})
+  \* the projecting higher-order operators over a projection that returns a synchronous one-value observable ARE Map (HO.tla decides them over
+  \* asynchronous inner sources); every flavour is its own entry point: index handed to the projection (I), context returned by it (C)
+  \cup Alias("Map", "MergeMap", "", {0}) \cup Alias("Map", "MergeMapI", "I", {0}) \cup Alias("Map", "MergeMapWithContext", "", {0}) \cup Alias("Map", "MergeMapIWithContext", "IC", {0})
+  \cup Alias("Map", "FlatMap", "", {0}) \cup Alias("Map", "FlatMapI", "I", {0}) \cup Alias("Map", "FlatMapWithContext", "", {0}) \cup Alias("Map", "FlatMapIWithContext", "I", {0})
   \cup Plain("BufferWithCount", {1, 2, 3}) \cup Plain("Pairwise", {0}) \cup Plain("StartWith", {0, 1, 2}) \cup Plain("EndWith", {0, 1, 2})
 Filters ==
   Flav4("Filter", {0}) \cup Plain("Distinct", {0}) \cup Flav2("DistinctBy", {0}) \cup Plain("IgnoreElements", {0})
